@@ -1045,8 +1045,29 @@ fn run_timeout(case_seed: u64, r: &mut Report) {
             return;
         }
     }
+    // t2 has just taken over the row whose lock t1 let expire. When the expired holder t1 now
+    // ends, t2's fresh lock must survive: a third transaction still gets a lock conflict.
+    let took_over = Instant::now();
+    let end_t1 = if case_seed & 1 == 0 { e.rollback(t1).is_ok() } else { e.commit(t1).is_ok() };
+    let t3 = e.begin_transaction();
+    let res3 = e.tx_update(t3, T, Condition::True, ups(4));
+    if took_over.elapsed() < Duration::from_millis(300) {
+        match res3 {
+            Err(RelationalError::LockConflict { .. }) => r.count("timeout_takeover_lock_survives_old_holder_end", 1),
+            other => {
+                r.violation(
+                    "exclusion:lock-of-new-holder-removed-when-expired-holder-ends",
+                    format!("t1 wrote the row and let its 1 s lock expire; t2 took the row over; t1 then ended (ok={}); a third transaction's write got {:?} although t2 is active and modified the row {} ms ago", end_t1, other, took_over.elapsed().as_millis()),
+                    replay,
+                );
+                return;
+            }
+        }
+    } else {
+        r.inconclusive("timeout: machine too slow for the takeover window (don't care)");
+    }
+    let _ = e.rollback(t3);
     let _ = e.commit(t2);
-    let _ = e.rollback(t1);
     r.eval(hash_combine(case_seed, 0x71), true);
     r.count("programs:timeout", 1);
 }
